@@ -99,6 +99,7 @@ const (
 	KeyCb   ctxKey = "verif.cb"   // marker attached by a context-aware callback
 	KeyItem ctxKey = "verif.item" // per-item marker attached by the harness source
 	KeyRst  ctxKey = "verif.rst"  // marker of the context installed by ContextReset
+	KeyHot  ctxKey = "verif.hot"  // marker of a context of the producer's own (hot source), NOT derived from the subscription context
 )
 
 func WithP(ctx context.Context, p int) context.Context { return context.WithValue(ctx, KeyP, p) }
